@@ -158,8 +158,8 @@ def build_with_history(ctx, spec, mode, hseed, kw=None, prefer=None):
     def analyse(so):
         with H.quiet():
             H.call(getattr(so, rng.choice(["solve", "solve", "phases", "rail_rep", "params"])))
-            if prefer:  # the report the calling check is about to judge
-                H.call(getattr(so, prefer))
+            if prefer:  # the report the calling check is about to judge (method name or callable taking the System)
+                H.call(prefer, so) if callable(prefer) else H.call(getattr(so, prefer))
 
     if mode == "solve_then_move_leaf":
         leaves = [c for c in spec["comps"] if c["kind"] in S.LOADS]
@@ -213,12 +213,20 @@ def build_with_history(ctx, spec, mode, hseed, kw=None, prefer=None):
         rng.shuffle(cands)
         for c in cands[: rng.randint(1, 4)]:
             a = c["args"]
-            if c["kind"] in S.LOADS and rng.random() < 0.5:
-                a["loss"] = not a.get("loss", False)
-            elif c["kind"] != "Source":
-                a["rt"] = G.sig(abs(a.get("rt", 0.0)) * 4.0 + 7.0)
-            else:
+            r_ = rng.random()
+            if c["kind"] == "Source":
                 continue
+            if r_ < 0.3:
+                # ... or a different component altogether (another operating point before the replacement)
+                if c["kind"] in S.LOADS:
+                    c["kind"], c["args"] = "ILoad", {"ii": 0.01}
+                else:
+                    c["kind"], c["args"] = "RLoss", {"rs": 0.01}
+                c["phase"] = None
+            elif c["kind"] in S.LOADS and r_ < 0.65:
+                a["loss"] = not a.get("loss", False)
+            else:
+                a["rt"] = G.sig(abs(a.get("rt", 0.0)) * 4.0 + 7.0)
             tuned.append(c["name"])
         if tuned:
             so = fresh(detour)
